@@ -28,7 +28,13 @@ type RetAlt struct {
 func isBackEdge(p, b *ssa.BasicBlock) bool { return b.Dominates(p) }
 
 // simplified boolean connectives on condition terms
-func cAnd(a, b *Term) *Term { return Ite(a, b, K(0)) }
+// cAnd right-nests conjunctions so that path conditions share structural prefixes.
+func cAnd(a, b *Term) *Term {
+	if a.Op == "ite" && a.Args[2].IsZero() {
+		return Ite(a.Args[0], cAnd(a.Args[1], b), K(0))
+	}
+	return Ite(a, b, K(0))
+}
 func cOr(a, b *Term) *Term {
 	if a.Key() == b.Key() {
 		return a
